@@ -53,7 +53,7 @@ class C07(Prop):
                                "subband", "zerodm"))
         nbits = rng.choice((1, 2, 4, 8, 32))
         if op == "downsample":
-            C = rng.choice((8, 16)) if nbits < 8 else rng.choice((2, 4, 8))
+            C = rng.choice((8, 16)) if nbits < 8 else rng.choice((2, 4, 8, 7, 14))
         elif op in ("bands",):
             C = 16 if nbits < 8 else rng.choice((4, 8))
         else:
@@ -82,8 +82,16 @@ class C07(Prop):
             cs = rng.randrange(0, C - nb * per + 1)
             c.update(chanstart=cs, nch=nb * per, per=per, batch=rng.choice((1, 2, 3, 200)))
         if op == "downsample":
-            c["tf"] = rng.choice((1, 2, 3, 4))
-            ffs = [f for f in (1, 2, 4) if C % f == 0 and ((C // f) * nbits) % 8 == 0]
+            # factors whose product is not a power of two: the mean of a group is then not a dyadic scaling
+            # (7 x 7 = 49 is the smallest product for which a reciprocal multiplication differs from a division)
+            c["tf"] = rng.choice((1, 2, 3, 4, 7, 7))
+            c["dconst"] = rng.random() < 0.35
+            if c["tf"] == 7:
+                c["N"] = max(N, 14)
+                c["s"], c["n"], c["none_n"] = 0, c["N"], True
+                c["splits"] = [c["N"]]
+                c["g"] = rng.choice((3, 7, 14, 20))
+            ffs = [f for f in (1, 2, 4, 7) if C % f == 0 and ((C // f) * nbits) % 8 == 0]
             c["ff"] = rng.choice(ffs)
         if op == "subband":
             c["dm"] = rng.choice((0.0, 5.0, 20.0, 50.0))
@@ -92,7 +100,17 @@ class C07(Prop):
 
     def gen(self, rng, tier):
         k = 1 if tier == "quick" else 6
-        return [self._case(rng) for _ in range(320 * k)]
+        cases = [self._case(rng) for _ in range(320 * k)]
+        # decimation by a product that is not a power of two, on data whose group means are exact integers
+        for _ in range(6 * k):
+            c = self._case(rng, "downsample")
+            nbits = rng.choice((8, 8, 32))
+            C = rng.choice((7, 14))
+            N = rng.choice((14, 21, 30))
+            c.update(nbits=nbits, C=C, N=N, splits=[N], s=0, n=N, none_n=True, tf=7, ff=7, dconst=True,
+                     g=rng.choice((3, 7, 14, 40)), pre=[])
+            cases.append(c)
+        return cases
 
     def corpus(self):
         b = {"nbits": 8, "N": 12, "splits": [12], "dseed": 5, "none_n": True, "s": 0, "n": 12}
@@ -106,7 +124,11 @@ class C07(Prop):
     # ------------------------------------------------------------------
     def _data(self, case):
         rng = random.Random(case["dseed"])
-        return spfiles.rand_data(rng, case["N"], case["C"], case["nbits"])
+        x = spfiles.rand_data(rng, case["N"], case["C"], case["nbits"])
+        if case.get("dconst"):
+            # every group mean is an exact integer: the reduction to the output depth must not lose a level
+            x[:] = x[0, 0]
+        return x
 
     def observe(self, case):
         from sigpyproc.readers import FilReader
